@@ -200,7 +200,7 @@ def run(ctx):
 
     # ---------------------------------------------------------------- R8
     r = ctx.rule("C06-R8", "SIBLING", "the fall-through to the base format is recursive in every query of format and builder (no include_base=False on the call to the base): "
-                 "elements of a base's base are found", reference=6)
+                 "elements of a base's base are found", reference=30)
     base_recursion_rule(ctx, r)
 
     # ---------------------------------------------------------------- R9
@@ -249,7 +249,7 @@ def run(ctx):
 
     # ---------------------------------------------------------------- R10
     r = ctx.rule("C06-R10", "GUARD", "every alias of a command option identifies it: the loops that index long and short aliases run for every command option, not only "
-                 "for those that (also) have some other name", reference=4)
+                 "for those that (also) have some other name", reference=2)
     def _name_guards(cfg, at, elem):
         """conditions on another attribute of `elem` that dominate node `at` (raising arms excluded)"""
         out = []
